@@ -240,6 +240,7 @@ impl ToZinc for Uri {
                 '`' => writer.write_all(br"\`")?,
                 '\\' => writer.write_all(br"\\")?,
                 '\x20'..='\x7e' => writer.write_all(&[c as u8])?,
+                '\u{10000}'.. => writer.write_all(c.encode_utf8(&mut [0; 4]).as_bytes())?,
                 _ => writer.write_fmt(format_args!("\\u{:04x}", c as u32))?,
             }
         }
